@@ -5,6 +5,9 @@ CHECKS = {
  'C04': ('model_checking', 'bit-precise (z3 QF_FP) symbolic execution of clang LLVM IR of every operator instance against its IEEE component-wise specification',
          'Every operator / compound assignment / constructor twin / math overload the inventory finds is executed symbolically from clang -O1 IR and compared bit for bit with the correctly rounded component-wise expression for all bit patterns of the operands (float, double, long double). Bounded by: path bound 4096, no loops with symbolic trip count, solver timeout.',
          'clang 14 IR at -O1 -ffp-contract=off (not the project\'s -O3 -ffast-math); z3 FP theory; operands built by memcpy of raw numbers; libm other than sqrt/fabs uninterpreted', '3 C04'),
+ 'C14': ('model_checking', 'bit-precise (z3 QF_FPBV+UF) symbolic execution of clang LLVM IR of the six comparison operators and std::hash of every comparable type against the lexicographic-order specification',
+         'For every quantity, vector/tensor, dimension and model type the six comparison operators and std::hash are executed symbolically from clang IR and shown, for all non-NaN bit patterns (all int8 exponents for Dimensions), to coincide with lexicographic order / component-wise equality of the stored values; a == b implies equal hashes with the std::hash bodies executed and _Hash_bytes uninterpreted (decided compositionally: one lemma per component hash + combination over shared variables).',
+         'clang 14 IR at -O1; NaN excluded as the property states; _Hash_bytes and std::hash<long double> are uninterpreted functions (the latter 0 for signed zeros, libstdc++ behaviour assumed); container storability follows by the std containers\' contract', '3 C14'),
 }
 NA = {}
 def main():
